@@ -161,7 +161,11 @@ ArithTrees(Ns) ==
       exprs == atoms \cup {Bin(a, u, v) : a \in ArithBin, u \in vars, v \in atoms}
                      \cup {Bin(g, Var("a1"), u) : g \in {"SUM", "AVG"}, u \in vars}
       cmps  == {Bin(c, x, y) : c \in CompOps, x \in exprs, y \in atoms}
-  IN  cmps \cup {Bin(o, v, c) : o \in {"AND", "IMPLIES"}, v \in vars,
+      \* nested arithmetic, both ways round: every pair of operators (what decides where parentheses are needed)
+      three == Lit("INT", "3")
+      nested == {Bin(a, u, Bin(b, v, three)) : a \in ArithBin, b \in ArithBin, u \in vars, v \in vars}
+                \cup {Bin(a, Bin(b, u, v), three) : a \in ArithBin, b \in ArithBin, u \in vars, v \in vars}
+  IN  cmps \cup {Bin("EQUALS", x, three) : x \in nested} \cup {Bin(o, v, c) : o \in {"AND", "IMPLIES"}, v \in vars,
                               c \in {Bin("GREATER", x, Lit("INT", "3")) : x \in vars}}
                \cup {Un("NOT", Bin("EQUALS", x, Lit("STR", "'txt'"))) : x \in vars}
 =============================================================================
